@@ -90,7 +90,8 @@ def render(prog, indent="    ") -> str:
 
 class Gen:
     """features: set of strings enabling constructs.  Default = the guarded core fragment.
-    'div' (// % on signed operands), 'truediv_int', 'pow', 'continue', 'retype', 'branch_first'
+    'div' (// % on signed operands), 'truediv_int', 'pow', 'continue' (in for / while loops - whose counter then
+    advances at the head of the body - and in the body of the main loop, directly and under nested ifs), 'retype', 'branch_first'
     (first assignment inside a branch/loop), 'loop_first' (first assignment inside while True),
     'funcs', 'float', 'str', 'tuple', 'chain_read' are opt-in."""
 
@@ -104,6 +105,9 @@ class Gen:
         self.counter = 0
         self.loopvars = []
         self.funcs = []
+        self.in_main = False    # generating the body of `while True:` (a `continue` there ends the pass)
+        self.n_continue = {"for": 0, "while": 0, "main": 0}
+        self.loop_kinds = []    # stack of the enclosing for/while loops
 
     # ---- expressions
     def int_atom(self, allow_vars=True):
@@ -191,8 +195,31 @@ class Gen:
         n = f"i{len(self.ints)}"
         return n
 
+    def continue_stmt(self, depth, in_loop):
+        """feature 'continue': a `continue` for the innermost enclosing loop (for / while / the main loop), reached
+        directly, under one `if`, under nested `if`s, or in an elif/else arm; statements follow it in the loop body,
+        so that dropping it (or giving it another target) changes the trace"""
+        r = self.rng
+        self.n_continue[self.loop_kinds[-1] if in_loop else "main"] += 1
+        cont = [("continue",)]
+        if r.random() < 0.4:
+            cont = [("write", self.write_expr())] + cont
+        shape = r.random()
+        if shape < 0.45:
+            return ("if", [(self.bool_expr(1), cont)], [])
+        if shape < 0.65:
+            inner = ("if", [(self.bool_expr(0), cont)], [("write", self.write_expr())] if r.random() < 0.5 else [])
+            return ("if", [(self.bool_expr(0), [inner] + ([("write", self.write_expr())] if r.random() < 0.5 else []))], [])
+        if shape < 0.80:
+            return ("if", [(self.bool_expr(0), [("write", self.write_expr())]), (self.bool_expr(0), cont)], [("write", self.write_expr())])
+        if shape < 0.92:
+            return ("if", [(self.bool_expr(0), [("write", self.write_expr())])], cont)
+        return ("continue",)
+
     def stmt(self, depth, in_loop, top):
         r = self.rng
+        if "continue" in self.f and (in_loop or self.in_main) and r.random() < 0.22:
+            return self.continue_stmt(depth, in_loop)
         if top and "tuple" in self.f and self.ints and len(self.ints) < 7 and r.random() < 0.2:
             # tuple DECLARATION of all-new names at top level; the right-hand sides read existing
             # (possibly re-assigned) variables, so they must be evaluated at this point of setup()
@@ -255,7 +282,9 @@ class Gen:
                 cnt = r.choice(["0", "1", "2", "3", "4"])
             self.loopvars.append(v)
             saved = list(self.ints)
+            self.loop_kinds.append("for")
             body = self.block(depth - 1, True, False)
+            self.loop_kinds.pop()
             if "branch_first" not in self.f:
                 self.ints = list(saved)
             self.loopvars.pop()
@@ -265,7 +294,13 @@ class Gen:
             c = f"w{self.counter}"
             self.counter += 1
             saved = list(self.ints)
-            body = self.block(depth - 1, True, False) + [("assign", c, f"({c} + 1)")]
+            self.loop_kinds.append("while")
+            if "continue" in self.f:
+                # the counter advances FIRST: a `continue` anywhere in the body cannot skip it (the loop terminates)
+                body = [("assign", c, f"({c} + 1)")] + self.block(depth - 1, True, False)
+            else:
+                body = self.block(depth - 1, True, False) + [("assign", c, f"({c} + 1)")]
+            self.loop_kinds.pop()
             if "branch_first" not in self.f:
                 self.ints = list(saved)
             lim = r.choice(["0", "1", "2", "3"])
@@ -273,6 +308,8 @@ class Gen:
         if k < 0.96 and in_loop:
             c = self.bool_expr(0)
             kind = "continue" if ("continue" in self.f and r.random() < 0.5) else "break"
+            if kind == "continue":
+                self.n_continue[self.loop_kinds[-1]] += 1
             return ("if", [(c, [(kind,)])], [])
         if k < 0.98 and len(self.ints) >= 2 and "tuple" in self.f:
             a, b = r.sample(self.ints, 2)
@@ -325,6 +362,11 @@ class Gen:
             self.bools.append("b0")
         # while counters must exist at top level (declared before any block uses them)
         body_pre = self.block(2, False, True, n=r.choice([2, 3, 5]))
+        self.in_main = True
         main = self.block(2, False, False, n=r.choice([2, 3, 4])) if with_main else None
+        self.in_main = False
         wdecl = [("assign", "n0", str(r.choice([0, 1, 2, 3])))] + [("assign", f"w{j}", "0") for j in range(self.counter)]
-        return {"funcs": [(f[0], f[1], f[2], f[3]) for f in self.funcs], "pre": wdecl + pre + body_pre, "main": main}
+        prog = {"funcs": [(f[0], f[1], f[2], f[3]) for f in self.funcs], "pre": wdecl + pre + body_pre, "main": main}
+        if "continue" in self.f:
+            prog["n_continue"] = dict(self.n_continue)     # by innermost enclosing loop (helper-function bodies not counted)
+        return prog
